@@ -22,13 +22,19 @@ var arch386 = map[string][]struct {
 	stream string
 	div    int
 }{
+	"C01": {{"hashes", 10}, {"pubkeys", 8}, {"scripts", 10}},
+	"C02": {{"cash", 10}, {"legacy", 10}, {"compensated", 6}},
+	"C04": {{"paths", 14}, {"il-special-words", 1}, {"errors", 4}},
 	"C05": {{"roundtrip", 5}},
 	"C06": {{"roundtrip", 8}, {"forged", 4}},
 	"C07": {{"b58-bytes", 8}, {"b58-strings", 8}, {"b58check", 8}, {"bech32-decode", 8}, {"convertbits-generic", 8}},
 	"C09": {{"murmur", 6}, {"history", 10}},
+	"C10": {{"tx", 10}, {"block", 10}},
+	"C11": {{"shapes", 4}, {"random", 6}, {"filters", 10}},
 	"C12": {{"mutations", 5}, {"deep", 5}},
 	"C13": {{"random", 5}},
 	"C14": {{"random", 6}, {"reduction", 4}},
+	"C15": {{"histories", 6}},
 	"C16": {{"blocks", 10}, {"txs", 10}},
 	"C18": {{"seeded", 10}},
 	"C19": {{"seeded", 5}, {"coinset", 5}},
